@@ -53,6 +53,7 @@ class LoopSpec:
     def __init__(self, n):
         self.n = n
         self.iter = None
+        self.body_hint = []
         self.sections = []  # (kind, [Clause])
 
 
@@ -69,6 +70,7 @@ class ItemSpec:
         self.replaces = []  # (rule, old, new, all)
         self.extra_attrs = []
         self.extra_lits = []
+        self.body_hint = []
 
 
 def _parse_clause_line(s):
@@ -134,6 +136,9 @@ def parse_item_block(lines, start, file, path):
         elif b == "fn":
             cur_sections = spec.sections
             cur_loop = None
+        elif b == "body-start":
+            tgt = cur_loop if cur_loop is not None else spec
+            pending_insert = ("body-start", None, tgt.body_hint)
         elif re.match(r"(before|after)(#\d+)? ", b):
             where, rest = b.split(" ", 1)
             mm = re.match(r"<<<(.*)>>>$", rest.strip(), re.S)
@@ -556,6 +561,8 @@ def weave_fn(w, spec, text, fn_label, item_index, twin):
                 edits.append((found + 2, " %s:" % ls.iter))
             loop_marks[b] = ls
             edits.append((b, ("LOOP", ls)))
+            if ls.body_hint:
+                edits.append((b + 1, "\n" + "\n".join(ls.body_hint) + "\n"))
     for where, anchor, raw in spec.inserts:
         if body_open is None:
             raise WeaveError("insert on bodiless fn %s" % fn_label)
@@ -614,6 +621,8 @@ def weave_fn(w, spec, text, fn_label, item_index, twin):
     if spec.external_body:
         w.add("{ unimplemented!() }")
         return hl
+    if spec.body_hint and body_open is not None and not spec.external_body:
+        edits.append((body_open + 1, "\n" + "\n".join(spec.body_hint) + "\n"))
     # --- string literal distinctness hints (proof only, no assumption): reveal every literal
     # that occurs in the body or the contract at the start of the body
     if FLAGS.get("strlit"):
